@@ -741,6 +741,15 @@ func (cc *ClusterContext) processAllocations(request *si.AllocationRequest) {
 		}
 
 		alloc := objects.NewAllocationFromSI(siAlloc)
+		// an invalid allocation (placeholder without a task group) cannot be converted: tell the RM
+		if alloc == nil {
+			rejectedAllocs = append(rejectedAllocs, &si.RejectedAllocation{
+				AllocationKey: siAlloc.AllocationKey,
+				ApplicationID: siAlloc.ApplicationID,
+				Reason:        "invalid allocation: placeholder without task group name",
+			})
+			continue
+		}
 
 		_, newAlloc, err := partition.UpdateAllocation(alloc)
 		if err != nil {
